@@ -78,7 +78,11 @@ def run(model, col, tier):
         if status != "return":
             continue
         rv = evs[-1].node.value
-        t = unparse(rv)
+        # (texts below are written with the conventional names; the function's own parameter names are mapped onto them)
+        lp9, rp9 = gp.args.args[0].arg, gp.args.args[1].arg
+        import re as _re9
+
+        t = _re9.sub(rf"\b{_re9.escape(rp9)}\b", "right", _re9.sub(rf"\b{_re9.escape(lp9)}\b", "left", unparse(rv))) if {lp9, rp9} != {"left", "right"} else unparse(rv)
         atoms = cond_atoms(evs)
         if "VectorType(" in t:
             good = "_GetCommonScalarType(left.GetComponentType(), right.GetComponentType())" in t and "left.GetComponentCount()" in t
@@ -93,7 +97,7 @@ def run(model, col, tier):
             col.ok("R09.2", f"{TYPES}::_GetCommonPrimitiveType scalar case", "delegates to the scalar lattice with (left, right)")
     col.floor("R09.2", "cases of _GetCommonPrimitiveType", n_ok, 3)
     for kind in ("Vector", "Matrix"):
-        asserts = [s for s in ast.walk(gp) if isinstance(s, ast.Assert) and "left.GetSize() == right.GetSize()" in unparse(s.test)]
+        asserts = [s for s in ast.walk(gp) if isinstance(s, ast.Assert) and unparse(s.test) in (f"{gp.args.args[0].arg}.GetSize() == {gp.args.args[1].arg}.GetSize()", f"{gp.args.args[1].arg}.GetSize() == {gp.args.args[0].arg}.GetSize()")]
         col.check(len(asserts) >= 2, "R09.2", f"{TYPES}::_GetCommonPrimitiveType equal shapes ({kind})", "identical shape is asserted before the common type is built", "the shape equality assertion is missing", TYPES, gp)
     # ---------------- R09.3 ------------------------------------------------------
     ctv = model.cls(CT, "ComputeTypeVisitor").own_method("_ProcessExpression")
@@ -109,7 +113,7 @@ def run(model, col, tier):
     col.check("self._operator = types.ResolveBinaryExpressionType(self.op, p0, p1)" in _alpha9(be), "R09.3", f"{ASTF}::BinaryExpression.ResolveType", "resolves its own operation with (left, right)",
               "BinaryExpression.ResolveType does not pass (own operation, left, right)", ASTF, be)
     et = model.cls(TYPES, "ExpressionType")
-    col.check("return self._operands[index]" in unparse(et.own_method("GetOperandType")) and "return self._result" in unparse(et.own_method("GetReturnType")), "R09.3", f"{TYPES}::ExpressionType accessors", "operand i / result are returned as stored", None, TYPES, et.node)
+    col.check(f"return self._operands[{et.own_method('GetOperandType').args.args[1].arg}]" in unparse(et.own_method("GetOperandType")) and "return self._result" in unparse(et.own_method("GetReturnType")), "R09.3", f"{TYPES}::ExpressionType accessors", "operand i / result are returned as stored", None, TYPES, et.node)
     nets = 0
     for c in ast.walk(rb):
         if isinstance(c, ast.Call) and last_attr(c) == "ExpressionType":
@@ -186,7 +190,7 @@ def run(model, col, tier):
         col.check(present, "R09.5", f"{TYPES}::ResolveBinaryExpressionType guard: {g}", "present as a rejecting path condition", f"the guard `{g}` is gone: combinations the language excludes are typed", TYPES, rb)
     for evs, status in paths(rb.body):
         atoms = cond_atoms(evs)
-        if status == "raise" and atoms.get("not right.IsScalar()") is None and atoms.get("right.IsScalar()") is False and atoms.get("operation == op.Operation.DIV") is True:
+        if status == "raise" and atoms.get(f"{rn9}.IsScalar()") is False and atoms.get(f"{opn9} == op.Operation.DIV") is True:
             col.ok("R09.5", f"{TYPES}::ResolveBinaryExpressionType DIV guard is on the DIV path", "a non-scalar right operand of / raises")
             break
     else:
@@ -203,8 +207,8 @@ def run(model, col, tier):
             continue
         ntail += 1
         atoms = cond_atoms(evs)
-        eq = atoms.get("left == right") is True or atoms.get("right == left") is True
-        common = any(last_attr(c) == "_GetCommonPrimitiveType" and [unparse(a) for a in c.args] in (["left", "right"], ["right", "left"]) for c in calls_on_path(evs))
+        eq = atoms.get(f"{ln9} == {rn9}") is True or atoms.get(f"{rn9} == {ln9}") is True
+        common = any(last_attr(c) == "_GetCommonPrimitiveType" and [unparse(a) for a in c.args] in ([ln9, rn9], [rn9, ln9]) for c in calls_on_path(evs))
         rv = evs[-1].node
         col.check(eq or common, "R09.6", f"{TYPES}::ResolveBinaryExpressionType component-wise tail `{' '.join(unparse(rv).split())[:50]}`",
                   "the operands are equal types, or the common type is built by _GetCommonPrimitiveType (asserts identical shape)",
@@ -213,4 +217,5 @@ def run(model, col, tier):
     grc = model.func(TYPES, "_GetRowsColumns")
     t = " ".join(unparse(grc).split())
     t = t.replace("(", "").replace(")", "")
-    col.check("return primitiveType.GetSize[0], 1" in t and "return 1, 1" in t and "return primitiveType.GetSize" in t, "R09.5", f"{TYPES}::_GetRowsColumns", "matrix -> (rows, cols), vector -> (n, 1), scalar -> (1, 1)", "the shapes used by the MUL rule changed", TYPES, grc)
+    pt9 = grc.args.args[0].arg
+    col.check(f"return {pt9}.GetSize[0], 1" in t and "return 1, 1" in t and f"return {pt9}.GetSize" in t, "R09.5", f"{TYPES}::_GetRowsColumns", "matrix -> (rows, cols), vector -> (n, 1), scalar -> (1, 1)", "the shapes used by the MUL rule changed", TYPES, grc)
